@@ -8,6 +8,7 @@ PLAN = {
     'C06': dict(level='proof', engines=[]),
     'C07': dict(level='proof', engines=[]),
     'C08': dict(level='proof', engines=[]),
+    'C10': dict(level='proof', engines=['chordre']),
     'C14': dict(level='proof', engines=[]),
     'C15': dict(level='proof', engines=['frames'], assumptions=['A3', 'A4', 'A5', 'A6', 'A7']),
 }
